@@ -241,6 +241,16 @@ def _set_const(repo, relpath, name):
 
 
 @section
+def _ambient(repo, out, notes):
+    """environment variables read per source file (see rv/ambient.py)"""
+    from rv import ambient
+    reads = ambient.scan(repo)
+    out.append("/-- regenerated: names read through os.environ / os.getenv, per source file (files that read none are left out) -/")
+    out.append("def envReads : List (String × List String) := %s" % lean_list(
+        "(%s, %s)" % (lean_str(f), lean_list(lean_str(n) for n in reads[f])) for f in sorted(reads)))
+
+
+@section
 def _source_walk(repo, out, notes):
     special = _set_const(repo, "req_compile/repos/source.py", "SPECIAL_DIRS")
     markers = _set_const(repo, "req_compile/repos/source.py", "MARKER_FILES")
